@@ -871,6 +871,14 @@ func TestC19_StalledRotation(t *testing.T) {
 		}
 		wg.Wait()
 		for i, err := range errs {
+			if err != nil && (strings.Contains(err.Error(), "the scenario ran late") || strings.Contains(err.Error(), "no write was issued between the boundary and the pause")) {
+				// the machine stalled the harness's own goroutines: the scenario did not take place as
+				// generated and is not judged (counted; a run without any judged scenario is inconclusive)
+				stalledDiscarded++
+				vk.Class("stalled-rotation:not-judged-harness-ran-late")
+				continue
+			}
+			stalledJudged++
 			vk.Eval()
 			vk.Class("stalled-rotation")
 			vk.NonTrivial(fmt.Sprintf("stalled-rotation/%+v", scs[i]))
@@ -886,7 +894,13 @@ func TestC19_StalledRotation(t *testing.T) {
 			}
 		}
 	})
+	if stalledJudged == 0 && !t.Failed() {
+		t.Fatalf("VERIF-INCONCLUSIVE C19: none of the stalled-rotation scenarios took place as generated (%d ran late)", stalledDiscarded)
+	}
+	vk.Extra("stalled_rotation_scenarios_not_judged", stalledDiscarded)
 }
+
+var stalledJudged, stalledDiscarded int
 
 func stalledRotation(parent string, awayMS, releaseMS, restoreMS, periodMS int) error {
 	dir := filepath.Join(parent, "logs")
